@@ -206,9 +206,24 @@ def views_job(arg):
             ("load", "/c16/x/one"),  # view 1 unchanged
             ("load", "/c16/q"),
             ("keep1",),  # still served
+            # now the other way round: view 1 moves to the second version first, then view 2 goes back to the
+            # first version, then view 1 goes back too (its link still points to the second version's blob)
+            ("keep1_v2",),
+            ("load", "/c16/x/one"),
+            ("set_store", igiven, d2),
+            ("keep1",),
+            ("load", "/c16/x/one"),
+            ("set_store", igiven, d1),
+            ("load", "/c16/x/one"),
+            ("keep1",),
+            ("load", "/c16/x/one"),
+            ("set_store", igiven, d2),
+            ("load", "/c16/x/one"),
         ]
         expected = [("ok", V1, ["node1"]), ("ok", VQ, ["node2"]), ("ok", None, None), ("ok", V1, []), ("ok", V1, []), ("dds", None, None), ("ok", V1B, ["node1_v2"]), ("ok", V1B, []),
-                    ("ok", None, None), ("ok", V1, []), ("ok", VQ, []), ("ok", V1, [])]
+                    ("ok", None, None), ("ok", V1, []), ("ok", VQ, []), ("ok", V1, []),
+                    ("ok", V1B, []), ("ok", V1B, []), ("ok", None, None), ("ok", V1, []), ("ok", V1, []), ("ok", None, None), ("ok", V1B, []), ("ok", V1, []), ("ok", V1, []),
+                    ("ok", None, None), ("ok", V1, [])]
         if same_process:
             obs = core.fork_call(_proc, (base, igiven, d1, cache, script), timeout=120)
             if isinstance(obs, core.JobFailed):
